@@ -147,6 +147,6 @@ if __name__=='__main__':
     for g in spec['groups']:
         if g['harness'] in THOROUGH_CAP:
             g['grid']['thorough']['n']=THOROUGH_CAP[g['harness']]
-        g.setdefault('instance_sec',{}).setdefault('thorough',300)
+        g.setdefault('instance_sec',{}).setdefault('thorough',600 if g['harness']=='H_C07_DecodeMessage_counts' else 300)
     json.dump(spec,open('/verif/props/C07.json','w'),indent=1)
     print(len(groups)+len(extra["groups"]),'groups in',len(dirs),'packages')
